@@ -80,25 +80,68 @@ def rule_r1(prog, res) -> None:
 # ----------------------------------------------------------------------------- ranks
 
 
-def class_rank_invariants(prog, ci: ClassInfo) -> dict[str, int]:
-    """attr -> required rank, read from the constructor's own checks"""
+def _ctor_node(prog, ci: ClassInfo):
+    """the constructor with its private helpers (e.g. an extracted shape check) expanded in place"""
     init = prog.find_method(ci, "__init__")
-    out: dict[str, int] = {}
     if init is None:
+        return None
+    try:
+        from ..inline import inlined
+
+        return inlined(prog, init).node
+    except Exception:  # noqa: BLE001
+        return init.node
+
+
+def _holds_after(test: ast.AST) -> list:
+    """equalities (left, right) that are known to hold when a raising test did NOT fire:
+    `a != b` -> a == b;  `not (a == b and c == d)` -> both;  `a != b or c != d` -> both;  `not a == b` -> a == b"""
+    if isinstance(test, ast.Compare) and len(test.ops) == 1 and isinstance(test.ops[0], ast.NotEq):
+        return [(test.left, test.comparators[0])]
+    if isinstance(test, ast.BoolOp) and isinstance(test.op, ast.Or):
+        out = []
+        for v in test.values:
+            out += _holds_after(v)
+        return out
+    if isinstance(test, ast.UnaryOp) and isinstance(test.op, ast.Not):
+
+        def conj(x):
+            if isinstance(x, ast.BoolOp) and isinstance(x.op, ast.And):
+                r = []
+                for v in x.values:
+                    r += conj(v)
+                return r
+            if isinstance(x, ast.Compare) and len(x.ops) == 1 and isinstance(x.ops[0], ast.Eq):
+                return [(x.left, x.comparators[0])]
+            return []
+
+        return conj(test.operand)
+    return []
+
+
+def _ctor_equalities(node) -> list:
+    out = []
+    for x in walk_no_nested(node):
+        if isinstance(x, ast.If) and any(isinstance(s_, ast.Raise) for s_ in x.body):
+            out += _holds_after(x.test)
+    return out
+
+
+def class_rank_invariants(prog, ci: ClassInfo) -> dict[str, int]:
+    """attr -> required rank, read from the constructor's own raising checks (helpers looked through, any
+    logically equivalent spelling of the test)"""
+    node = _ctor_node(prog, ci)
+    out: dict[str, int] = {}
+    if node is None:
         return out
     param_rank: dict[str, int] = {}
-    for x in walk_no_nested(init.node):
-        if isinstance(x, ast.If) and any(isinstance(s, ast.Raise) for s in x.body):
-            for cmp_ in [c for c in ast.walk(x.test) if isinstance(c, ast.Compare)]:
-                parts = [cmp_.left, *cmp_.comparators]
-                lits = [p.value for p in parts if isinstance(p, ast.Constant) and isinstance(p.value, int)]
-                tups = [p for p in parts if isinstance(p, ast.Tuple)]
-                for p in parts:
-                    if isinstance(p, ast.Attribute) and p.attr == "ndim" and lits and all(isinstance(o, ast.NotEq) for o in cmp_.ops):
-                        param_rank[unparse(p.value)] = lits[-1]
-                    if isinstance(p, ast.Attribute) and p.attr == "shape" and tups and isinstance(cmp_.ops[0], ast.NotEq):
-                        param_rank[unparse(p.value)] = len(tups[0].elts)
-    for x in walk_no_nested(init.node):
+    for l, r in _ctor_equalities(node):
+        for a_, b_ in ((l, r), (r, l)):
+            if isinstance(a_, ast.Attribute) and a_.attr == "ndim" and isinstance(b_, ast.Constant) and isinstance(b_.value, int):
+                param_rank[unparse(a_.value)] = b_.value
+            if isinstance(a_, ast.Attribute) and a_.attr == "shape" and isinstance(b_, ast.Tuple):
+                param_rank[unparse(a_.value)] = len(b_.elts)
+    for x in walk_no_nested(node):
         if isinstance(x, ast.Assign):
             for t in x.targets:
                 if isinstance(t, ast.Attribute) and isinstance(t.value, ast.Name) and t.value.id == "self":
@@ -295,9 +338,10 @@ def class_shape_invariants(prog, ci: ClassInfo) -> dict[str, tuple]:
     init = prog.find_method(ci, "__init__")
     if init is None:
         return {}
+    init_node = _ctor_node(prog, ci) or init.node
     params = set(init.param_names())
     alias: dict[str, str] = {}  # 'self.attr' -> param name it is built from
-    for x in walk_no_nested(init.node):
+    for x in walk_no_nested(init_node):
         if isinstance(x, ast.Assign):
             for t in x.targets:
                 if isinstance(t, ast.Attribute) and isinstance(t.value, ast.Name) and t.value.id == "self":
@@ -347,29 +391,21 @@ def class_shape_invariants(prog, ci: ClassInfo) -> dict[str, tuple]:
         return t[5:] if t.startswith("self.") else t
 
     pending = []
-    for x in walk_no_nested(init.node):
-        if not (isinstance(x, ast.If) and any(isinstance(s_, ast.Raise) for s_ in x.body)):
-            continue
-        for cmp_ in [c for c in ast.walk(x.test) if isinstance(c, ast.Compare) and len(c.ops) == 1]:
-            neg = any(isinstance(u, ast.UnaryOp) and isinstance(u.op, ast.Not) and u.operand is cmp_ for u in ast.walk(x.test))
-            op = cmp_.ops[0]
-            if not ((isinstance(op, ast.NotEq) and not neg) or (isinstance(op, ast.Eq) and neg)):
-                continue
-            l, r = cmp_.left, cmp_.comparators[0]
-            for a, b in ((l, r), (r, l)):
-                if isinstance(a, ast.Attribute) and a.attr == "ndim" and isinstance(b, ast.Constant) and isinstance(b.value, int):
-                    if base(a.value) is not None:
-                        rank[base(a.value)] = b.value
-                if isinstance(a, ast.Attribute) and a.attr == "shape" and isinstance(b, ast.Tuple) and base(a.value) is not None:
-                    rank[base(a.value)] = len(b.elts)
-                    for i, el in enumerate(b.elts):
-                        pending.append(((base(a.value), i), sym(el)))
-            if isinstance(l, ast.Attribute) and l.attr == "shape" and isinstance(r, ast.Attribute) and r.attr == "shape":
-                pending.append(("same", base(l.value), base(r.value)))
-            elif isinstance(l, ast.Subscript) or isinstance(r, ast.Subscript):
-                a, b = sym(l), sym(r)
-                if a is not None and b is not None and (isinstance(a, tuple) or isinstance(b, tuple)):
-                    pending.append((a, b))
+    for l, r in _ctor_equalities(init_node):
+        for a, b in ((l, r), (r, l)):
+            if isinstance(a, ast.Attribute) and a.attr == "ndim" and isinstance(b, ast.Constant) and isinstance(b.value, int):
+                if base(a.value) is not None:
+                    rank[base(a.value)] = b.value
+            if isinstance(a, ast.Attribute) and a.attr == "shape" and isinstance(b, ast.Tuple) and base(a.value) is not None:
+                rank[base(a.value)] = len(b.elts)
+                for i, el in enumerate(b.elts):
+                    pending.append(((base(a.value), i), sym(el)))
+        if isinstance(l, ast.Attribute) and l.attr == "shape" and isinstance(r, ast.Attribute) and r.attr == "shape":
+            pending.append(("same", base(l.value), base(r.value)))
+        elif isinstance(l, ast.Subscript) or isinstance(r, ast.Subscript):
+            a, b = sym(l), sym(r)
+            if a is not None and b is not None and (isinstance(a, tuple) or isinstance(b, tuple)):
+                pending.append((a, b))
     for it in pending:
         if it[0] == "same":
             _, a, b = it
@@ -664,12 +700,16 @@ def rule_r5(prog, res) -> None:
         init = ci.methods.get("__init__")
         if init is None:
             continue
-        for x in walk_no_nested(init.node):
+        init_node = _ctor_node(prog, ci) or init.node  # (an extracted shape-check helper is expanded in place)
+        for x in walk_no_nested(init_node):
             if not (isinstance(x, ast.If) and any(isinstance(s, ast.Raise) for s in x.body)):
                 continue
             texts = sorted({unparse(a) for a in ast.walk(x.test) if isinstance(a, ast.Attribute) and a.attr == "ndim"})
             if not texts:
                 continue
+            cmps = [c for c in ast.walk(x.test) if isinstance(c, ast.Compare)]
+            if any(not any(isinstance(a, ast.Attribute) and a.attr == "ndim" for a in ast.walk(c)) for c in cmps):
+                continue  # a guard that mixes the rank with other conditions (length, values) is not a pure rank guard
             lits = sorted({c.value for c in ast.walk(x.test) if isinstance(c, ast.Constant) and isinstance(c.value, int) and not isinstance(c.value, bool)})
             if len(lits) != 1:
                 raise AnalysisError(f"C17.R5: rank guard {unparse(x.test)} in {init.short} has no single rank literal")
